@@ -13,7 +13,8 @@
    very message). *)
 From PV Require Import Base.Prelude Base.Decimal MaildirFS.FS MaildirFS.UidList MaildirFS.Ops
   MaildirFS.Spec MaildirFS.Legal MaildirFS.Examples
-  MaildirFS.UidListProofs MaildirFS.DurabilityProofs MaildirFS.LegalProofs MaildirFS.CrashProofs.
+  MaildirFS.UidListProofs MaildirFS.DurabilityProofs MaildirFS.LegalProofs MaildirFS.CrashProofs
+  MaildirFS.CommandProofs.
 
 (* a completely written uid list is always readable: parse (print u) = u *)
 Theorem C15_uidlist_roundtrip : forall u,
@@ -68,6 +69,46 @@ Theorem C15_files_never_rewritten : forall lay m o m' f key i c f' i' c',
   file_at m f key i c -> file_at m' f' key i' c' -> c = c'.
 Proof. exact legal_step_content. Qed.
 Print Assumptions C15_files_never_rewritten.
+
+(* ---- the model's APPEND (any number of messages), in every state with a
+   readable uid list, fresh distinct keys and printable names *)
+(* its operation list is legal: the theorems above apply to it *)
+Theorem C15_append_ops_legal : forall lay f s msgs, live s = true -> forall m u,
+  lookup m (PCtl f CUidl) = Some (File (Text (print_uidl u))) ->
+  wf_uidl u = true -> uids_ok u ->
+  (forall a, In a msgs -> key_unused m (a_key a) /\ wf_amsg a = true) ->
+  NoDup (map a_key msgs) ->
+  legal_ops_b lay m (append_ops f s u msgs) = true.
+Proof. exact append_ops_legal. Qed.
+Print Assumptions C15_append_ops_legal.
+
+(* an acknowledged APPEND (all its operations done) serves every one of its
+   messages under the uid announced for it (next, next+1, ...), with the
+   requested system flags and its content *)
+Theorem C15_append_acked_served : forall lay f s msgs m u m',
+  live s = true ->
+  apply_ops lay m (append_ops f s u msgs) = (m', true) ->
+  NoDup (map a_key msgs) ->
+  lookup m (PCtl f CUidl) = Some (File (Text (print_uidl u))) ->
+  wf_uidl u = true -> uids_ok u -> (forall a, In a msgs -> wf_amsg a = true) ->
+  forall j a, nth_error msgs j = Some a ->
+  serves m' f (u_val u) (u_next u + N.of_nat j)%N (a_key a)
+         (flags_of_info (info_of_letters (a_flags a))) (a_cid a).
+Proof. exact append_acked_served. Qed.
+Print Assumptions C15_append_acked_served.
+
+(* killed after any k of its operations: the invariant holds and everything
+   served before, in any folder, is still served identically *)
+Theorem C15_append_crash_safe : forall lay f s msgs m u k,
+  live s = true -> Inv m ->
+  lookup m (PCtl f CUidl) = Some (File (Text (print_uidl u))) ->
+  wf_uidl u = true -> uids_ok u ->
+  (forall a, In a msgs -> key_unused m (a_key a) /\ wf_amsg a = true) ->
+  NoDup (map a_key msgs) ->
+  let mk := after_crash lay m (append_ops f s u msgs) k in
+  Inv mk /\ (forall g v uid key fl c, serves m g v uid key fl c -> serves mk g v uid key fl c).
+Proof. exact append_crash_safe. Qed.
+Print Assumptions C15_append_crash_safe.
 
 (* open finding C15-F1: a kill between taking and releasing a lock leaves the
    lock file; a restarted server refuses the folder (NO [TIMEOUT]) although a
